@@ -31,3 +31,43 @@ Definition spec_fctrl_decode (b : N) : fctrl :=
   let l := unpack L_FCtrl b in
   mkFCtrl (f2b (nth 4 l 0)) (f2b (nth 3 l 0)) (f2b (nth 2 l 0)) (f2b (nth 1 l 0)) (f2b (nth 1 l 0)) (nth 0 l 0).
 Definition spec_dlsettings (optneg : bool) (rx2 rx1 : N) : N := pack L_DLSettings [rx2; rx1; b2f optneg].
+
+(* ---- the specified bytes of the join / rejoin payloads and of the CFList ---- *)
+Fixpoint mask_num (m : list bool) : N :=
+  match m with [] => 0 | b :: m' => b2f b + 2 * mask_num m' end.
+
+Definition spec_cflist (l : cflist) : option (list N) :=
+  match cf_payload l with
+  | CFPChannels chs =>
+    if Nat.eqb (length chs) 5 && forallb (fun f => (f mod 100 =? 0) && (f / 100 <? 2 ^ 24)) chs && (cf_type l =? 0)
+    then Some (spec_encode L_CFListChannels (map (fun f => f / 100) chs ++ [0])) else None
+  | CFPMasks ms =>
+    if (length ms <=? 6)%nat && forallb (fun m => Nat.eqb (length m) 16) ms && (cf_type l =? 1)
+    then Some (spec_encode L_CFListMasks (firstn 6 (map mask_num ms ++ repeat 0 6) ++ [1])) else None
+  | CFPNil => None
+  end.
+
+Definition id_ok' (k : nat) (a : list N) : bool := Nat.eqb (length a) k && forallb (fun b => b <? 256) a.
+
+Definition frame_spec_bytes (p : payload) : option (list N) :=
+  match p with
+  | PLJoinRequest je de dn =>
+    if id_ok' 8 je && id_ok' 8 de && (dn <? 65536)
+    then Some (spec_encode L_JoinRequest [id_val je; id_val de; dn]) else None
+  | PLRejoin02 ty nid de rc =>
+    if ((ty =? 0) || (ty =? 2)) && id_ok' 3 nid && id_ok' 8 de && (rc <? 65536)
+    then Some (spec_encode L_Rejoin02 [ty; id_val nid; id_val de; rc]) else None
+  | PLRejoin1 ty je de rc =>
+    if (ty =? 1) && id_ok' 8 je && id_ok' 8 de && (rc <? 65536)
+    then Some (spec_encode L_Rejoin1 [ty; id_val je; id_val de; rc]) else None
+  | PLJoinAccept jn nid da o rx2 rx1 rxd cfl =>
+    if (jn <? 2 ^ 24) && id_ok' 3 nid && id_ok' 4 da && (rx2 <? 16) && (rx1 <? 8) && (rxd <? 16)
+    then
+      let head := spec_encode L_JoinAccept [jn; id_val nid; id_val da; spec_dlsettings o rx2 rx1; rxd] in
+      match cfl with
+      | None => Some head
+      | Some l => match spec_cflist l with Some c => Some (head ++ c) | None => None end
+      end
+    else None
+  | _ => None
+  end.
